@@ -744,16 +744,6 @@ def compile_if(compiler, expr, _, cond, body, orel_expr):
     body = compiler.compile(body)
 
     nested = root = False
-    orel = Result()
-    if (
-        isinstance(orel_expr, Expression)
-        and isinstance(orel_expr[0], Symbol)
-        and orel_expr[0] == Symbol("if*")
-    ):
-        # Nested ifs: don't waste temporaries
-        root = compiler.temp_if is None
-        nested = True
-        compiler.temp_if = compiler.temp_if or compiler.get_anon_var()
     orel = compiler.compile(orel_expr)
 
     if not cond.stmts and isinstance(cond.force_expr, ast.Name):
